@@ -7,7 +7,8 @@
 From Coq Require Import String.
 From Coq Require Import List Ascii ZArith Bool.
 From CGV Require Import Base.PyBase Base.PyVal Gen.FragGen Dialect.DialectImpl Frag.NDict Frag.StripImpl Frag.FragText
-     Frag.StripFacts Frag.FragProofs Frag.FragStages Frag.FragSmall Frag.RingProofs.
+     Frag.StripFacts Frag.FragProofs Frag.FragStages Frag.FragSmall Frag.RingProofs
+     Gen.SmilesGen Frag.SmilesParse Frag.SmilesSpec Frag.SmilesProofs Frag.SmilesIndex Frag.SmilesRelabel.
 Import ListNotations.
 
 (** The full statement
@@ -98,6 +99,65 @@ Proof. exact order_lookup_bchar. Qed.
 Theorem C13_table_kinds : forall c, is_kind c = char_in c kind_chars.
 Proof. exact is_kind_kind_chars. Qed.
 
+(** ------------------------------------------------------------------------------------------
+    The clean text goes to pysmiles.  [smiles_parse] (Frag/SmilesParse.v) models the installed
+    pysmiles' _tokenize + base_smiles_parser(strict=False) + parse_atom + the bond-order loop of
+    read_smiles (compared with the library on every run); [graph_of ks toks] (Frag/SmilesSpec.v) is the
+    token-level graph: atom i = i-th atom token, an atom bonds to the current atom (previous atom or
+    the atom its branch hangs on), ring bonds from marker pairs; [ks] = slash marks kept in the text
+    (false for the clean text of strip_bonding_descriptors). *)
+Theorem C13_render_parse : forall ks toks, wf_smiles toks = true ->
+  smiles_parse (render_smiles ks toks) = graph_of ks toks.
+Proof. exact render_parse. Qed.
+Theorem C13_render_parse_base : forall ks toks, wf_smiles toks = true ->
+  base_smiles_parser (render_smiles ks toks) = graph_base ks toks.
+Proof. exact base_parse. Qed.
+(** node i of the graph is the i-th atom token (its text), and the node counter is their number *)
+Theorem C13_graph_nodes : forall ks toks g g', grun ks g toks = Ok g' ->
+  q_atoms g' = q_atoms g ++ flat_map (fun t => match t with TAtom _ | TBracket _ _ => [clean_tok t] | _ => [] end) toks
+  /\ (q_n g = length (q_atoms g) -> q_n g' = length (q_atoms g')).
+Proof. exact grun_atoms. Qed.
+(** the indices strip reports are the parser's: with every key taken from the parser's state on the
+    clean text ([parser_view]: descriptor -> current atom [q_cur], annotation -> node counter [q_n]),
+    the dictionaries are the ones the strip machine returns, and pysmiles builds, from the clean text
+    the machine returns, the graph of that same parser run *)
+Theorem C13_index_agrees_with_parser : forall fo toks dc clean d e a g d' a',
+  wf toks dc = true -> excluded toks dc = false -> wf_smiles toks = true ->
+  strip_bonding_descriptors fo (render (decorate toks dc)) = Ok (clean, d, e, a) ->
+  parser_view fo toks dc = Ok (g, d', a') ->
+  d = d' /\ a = a' /\ clean = render_smiles false toks /\
+  smiles_parse clean = interpret (q_atoms g, q_edges g, q_ez g).
+Proof. exact index_agrees. Qed.
+Example C13_index_nonvacuous :
+  wf nv_toks nv_dc = true /\ excluded nv_toks nv_dc = false /\ wf_smiles nv_toks = true /\
+  (exists clean d e a, strip_bonding_descriptors fo0 (render (decorate nv_toks nv_dc)) = Ok (clean, d, e, a)) /\
+  (exists g d' a', parser_view fo0 nv_toks nv_dc = Ok (g, d', a') /\ q_n g = 5 /\
+     d' = [(0, [S ">2"; S "$a1"]); (3, [S "<3"]); (4, [S "!22"; S "$1"])]) /\
+  (exists gr, graph_of false nv_toks = Ok gr /\ length (g_nodes gr) = 5 /\ length (g_edges gr) = 5).
+Proof. exact index_example. Qed.
+(** text level of C01, ring-digit choice: re-labelling the ring-bond markers by any map that is
+    injective on the numbers (another digit, %nn for a digit) does not change the graph; partial:
+    start atom and branch order are not covered here *)
+Theorem C01_rendering_independent_partial : forall (f : pystr -> pystr) (rho : Z -> Z),
+  (forall m, marker_val (f m) = rho (marker_val m)) -> (forall x y, rho x = rho y -> x = y) ->
+  forall ks toks, graph_of ks (relabel f toks) = graph_of ks toks.
+Proof. exact graph_relabel. Qed.
+Theorem C01_rendering_independent_text_partial : forall (f : pystr -> pystr) (rho : Z -> Z),
+  (forall m, marker_val (f m) = rho (marker_val m)) -> (forall x y, rho x = rho y -> x = y) ->
+  forall ks toks, wf_smiles toks = true -> wf_smiles (relabel f toks) = true ->
+  smiles_parse (render_smiles ks (relabel f toks)) = smiles_parse (render_smiles ks toks).
+Proof. exact parse_relabel. Qed.
+Example C01_relabel_nonvacuous :
+  wf_smiles rl_toks = true /\ wf_smiles (relabel rl_f rl_toks) = true /\
+  to_string (render_smiles true (relabel rl_f rl_toks)) = "C%15CC=7CC%15C7"%string /\
+  (exists g, graph_of true rl_toks = Ok g /\ length (g_edges g) = 7) /\
+  graph_of true (relabel rl_f rl_toks) = graph_of true rl_toks /\
+  graph_of true (relabel pct_of rl_toks) = graph_of true rl_toks.
+Proof. exact relabel_example. Qed.
+(** the documented bond orders are the ones of the installed pysmiles *)
+Theorem C13_smiles_orders : forall b, smiles_bond_to_order_lookup [bchar b] = Ok (border b).
+Proof. exact smiles_order_bchar. Qed.
+
 Print Assumptions C13_partial.
 Print Assumptions C13_refuted_coarse_multiplier.
 Print Assumptions C13_chains.
@@ -108,3 +168,7 @@ Print Assumptions C13_coarse.
 Print Assumptions C13_small.
 Print Assumptions C13_peekiter_peek.
 Print Assumptions C13_collect_ring_number.
+Print Assumptions C13_render_parse.
+Print Assumptions C13_index_agrees_with_parser.
+Print Assumptions C01_rendering_independent_partial.
+Print Assumptions C01_rendering_independent_text_partial.
